@@ -3,6 +3,7 @@
   that are distinct), every WF compressed layout without stored zeros (any index order inside a
   vector), every reduce function, every axis/mode.
 -/
+import Mathlib.Data.List.Nodup
 import BiomModel.Lemmas.C19
 
 namespace Biom.C19
@@ -60,18 +61,6 @@ theorem sum_whole (t : Table Rat) (h : TableOK t) :
   exact (total_transpose t.samp.length t.rows h.rect).symm
 
 /-! ### non-zero counts -/
-
-theorem foldl_add_eq_sum (l : List Rat) (a : Rat) : l.foldl (· + ·) a = a + l.sum := by
-  induction l generalizing a with
-  | nil => simp only [List.foldl_nil, List.sum_nil]; grind
-  | cons x xs ih => simp only [List.foldl_cons, List.sum_cons, ih]; grind
-
-theorem cast_sum_cntNZ (g : Grid) : ((nnzCells g : Nat) : Rat) = (g.map (fun v => (cntNZ v : Rat))).sum := by
-  induction g with
-  | nil => simp [nnzCells]
-  | cons r g ih =>
-    simp only [nnzCells, List.map_cons, List.sum_cons] at ih ⊢
-    rw [← ih]; simp
 
 /-- `nonzero_counts(axis, binary)`: per ID the number of non-zero cells / the sum of its vector -/
 theorem nonzero_counts_axis (t : Table Rat) (h : TableOK t) (ax : Axis) (binary : Bool) :
@@ -147,17 +136,6 @@ theorem reduce_spec (t : Table Rat) (h : TableOK t) (f : Rat → Rat → Rat) (a
 
 /-! ### minimum and maximum of the non-zero values -/
 
-theorem mapE_map {α β γ : Type} (f : β → Except Err γ) (h : α → β) (l : List α) :
-    mapE f (l.map h) = mapE (fun a => f (h a)) l := by
-  induction l with
-  | nil => rfl
-  | cons a l ih => simp only [List.map_cons, mapE, ih]
-
-theorem selL?_ne_nil (op : Rat → Rat → Rat) (xs : List Rat) (h : xs ≠ []) : ∃ m, selL? op xs = some m := by
-  cases xs with
-  | nil => exact absurd rfl h
-  | cons x xs => exact ⟨_, rfl⟩
-
 /-- what `minNZ v = some m` says: `m` is a non-zero value of `v` and no non-zero value is smaller -/
 theorem minNZ_iff (v : List Rat) (m : Rat) :
     minNZ v = some m ↔ (m ∈ v ∧ m ≠ 0) ∧ ∀ x ∈ v, x ≠ 0 → m ≤ x := by
@@ -186,61 +164,6 @@ theorem maxNZ_iff (v : List Rat) (m : Rat) :
     apply selL?_of_isSel sel_max
     simp only [IsSel, nzVals, List.mem_filter, decide_eq_true_eq]
     exact ⟨h.1, fun x hx => h.2 x hx.1 hx.2⟩
-
-section
-variable {op : Rat → Rat → Rat} {le : Rat → Rat → Prop} (S : Sel op le)
-include S
-
-/-- selecting over the stored values of a vector = selecting over the non-zero values of the dense vector -/
-theorem sel_stored (cs : CS Rat) (hwf : cs.WF) (hnsz : cs.NoStoredZeros) (i : Nat) (hi : i < cs.nMajor) :
-    selL? op ((cs.slice i).map (·.2)) = selL? op (nzVals (denseVec cs.nMinor (cs.slice i))) := by
-  apply selL?_congr S
-  apply stored_iff_nz
-  · exact hwf.distinct i hi
-  · intro e he; exact hwf.inRange _ (slice_idx_mem cs i e he).1
-  · intro e he; exact hnsz _ (slice_idx_mem cs i e he).2
-
-theorem extreme_axis (red : List Rat → Except Err Rat)
-    (hred : ∀ xs, red xs = match selL? op xs with | some m => .ok m | none => .error .value)
-    (cs : CS Rat) (hwf : cs.WF) (hnsz : cs.NoStoredZeros) (hall : ∀ v ∈ cs.toDense, nzVals v ≠ []) :
-    mapE red (storedVals cs) = .ok (cs.toDense.map (fun v => (selL? op (nzVals v)).getD 0)) := by
-  simp only [storedVals, toDense_getElem, mapE_map, List.map_map, Function.comp_def]
-  apply mapE_ok
-  intro i hi
-  have hi' : i < cs.nMajor := List.mem_range.mp hi
-  have hv : denseVec cs.nMinor (cs.slice i) ∈ cs.toDense := by
-    rw [toDense_getElem]; exact List.mem_map.mpr ⟨i, hi, rfl⟩
-  obtain ⟨m, hm⟩ := selL?_ne_nil op _ (hall _ hv)
-  rw [hred, sel_stored S cs hwf hnsz i hi', hm]
-  rfl
-
-theorem extreme_whole (cols g : Grid) (m0 : Rat) (ms : List Rat)
-    (hall : ∀ v ∈ cols, nzVals v ≠ [])
-    (hL : cols.map (fun v => (selL? op (nzVals v)).getD 0) = m0 :: ms)
-    (hsub : ∀ c ∈ cols, ∀ x ∈ c, x ∈ g.flatten) (hsup : ∀ x ∈ g.flatten, ∃ c ∈ cols, x ∈ c) :
-    selL? op (nzVals g.flatten) = some (ms.foldl op m0) := by
-  have hsel : selL? op (m0 :: ms) = some (ms.foldl op m0) := rfl
-  have hs := selL?_isSel S _ _ hsel
-  rw [← hL] at hs
-  apply selL?_of_isSel S
-  have hcol : ∀ c ∈ cols, IsSel le ((selL? op (nzVals c)).getD 0) (nzVals c) := by
-    intro c hc
-    obtain ⟨m, hm⟩ := selL?_ne_nil op _ (hall c hc)
-    rw [hm]; exact selL?_isSel S _ _ hm
-  constructor
-  · obtain ⟨c, hc, hcm⟩ := List.mem_map.mp hs.1
-    have h1 := (hcol c hc).1
-    rw [hcm] at h1
-    simp only [nzVals, List.mem_filter, decide_eq_true_eq] at h1 ⊢
-    exact ⟨hsub c hc _ h1.1, h1.2⟩
-  · intro x hx
-    simp only [nzVals, List.mem_filter, decide_eq_true_eq] at hx
-    obtain ⟨c, hc, hxc⟩ := hsup x hx.1
-    have h1 := (hcol c hc).2 x (by simp only [nzVals, List.mem_filter, decide_eq_true_eq]; exact ⟨hxc, hx.2⟩)
-    have h2 := hs.2 _ (List.mem_map.mpr ⟨c, hc, rfl⟩)
-    exact S.trans _ _ _ h2 h1
-
-end
 
 theorem allNonEmpty_iff (t : Table Rat) (h : TableOK t) (ax : Axis) :
     allNonEmpty t ax = true ↔ ∀ v ∈ iterData t ax, nzVals v ≠ [] := by
@@ -333,13 +256,6 @@ theorem extremeM_whole {op : Rat → Rat → Rat} {le : Rat → Rat → Prop} (S
     have hc := cells_transpose inp.t ht
     exact (extreme_whole S _ inp.t.rows m0 ms hne hL hc.1 hc.2).symm
 
-theorem npMin_sel (xs : List Rat) :
-    npMin xs = match selL? min xs with | some m => .ok m | none => .error .value := by cases xs <;> rfl
-theorem npMax_sel (xs : List Rat) :
-    npMax xs = match selL? max xs with | some m => .ok m | none => .error .value := by cases xs <;> rfl
-theorem minNZ_eq : minNZ = fun v => selL? min (nzVals v) := by funext v; simp [minNZ, minL?_eq_selL?]
-theorem maxNZ_eq : maxNZ = fun v => selL? max (nzVals v) := by funext v; simp [maxNZ, maxL?_eq_selL?]
-
 /-- `min(axis)` on the table: when every vector of the axis has a non-zero value, the figure of each
 ID is the minimum of the non-zero values of that ID's vector -/
 theorem min_axis_spec (inp : Input) (ht : TableOK inp.t) (hrow : inp.rowOK) (hcol : inp.colOK) (ax : Axis)
@@ -409,15 +325,6 @@ theorem eliminateZeros_noStoredZeros (cs : CS Rat) : (eliminateZeros cs).NoStore
   exact of_decide_eq_true (List.mem_filter.mp he).2
 
 /-! ### the predicate holds of the model: summaries -/
-
-theorem approx_refl (x : Rat) : approx x x = true := by
-  have h0 : (x - x).abs = 0 := by
-    have : x - x = 0 := by grind
-    rw [this]; rfl
-  have h1 : (0 : Rat) ≤ x.abs := Rat.abs_nonneg
-  simp only [approx, h0, decide_eq_true_eq]
-  have : (0 : Rat) ≤ x.abs / 1099511627776 := by grind
-  exact this
 
 theorem reduceSpec_toOption (f : Rat → Rat → Rat) (v : List Rat) (h : v ≠ []) :
     (reduce1 f v).toOption = some (reduceSpec f v) := by
@@ -596,16 +503,6 @@ theorem median_spec (c s : List Rat) (hp : s.Perm c) (hs : s.Pairwise (· ≤ ·
 theorem ids_model_holds (t : Table Rat) (o : Bool) : holdsIds t o (idsM t o) = true := by
   cases o <;> simp [holdsIds, idsM, Table.ids]
 
-theorem lookupBy_map {β γ : Type} (g : β → γ) : ∀ (ids : List Id) (xs : List β) (id : Id),
-    lookupBy ids (xs.map g) id = (lookupBy ids xs id).map g
-  | [], _, _ => by simp [lookupBy]
-  | _ :: _, [], _ => by simp [lookupBy]
-  | i :: is, x :: xs, id => by
-    simp only [List.map_cons, lookupBy]
-    split
-    · rfl
-    · exact lookupBy_map g is xs id
-
 /-- `head -n -m`: refuses n, m ≤ 0; otherwise lists the first n observation and m sample IDs in
 order and every value shown is the table's value for that (observation ID, sample ID) -/
 theorem head_model_holds (t : Table Rat) (n m : Int) : holdsHead t n m (headM t n m) = true := by
@@ -639,12 +536,6 @@ theorem frame_dense_holds (t : Table Rat) : holdsFrame t (frameDenseM t) = true 
     | some r => simp [lookupBy_map]
   simp only [holdsFrame, hv, Bool.and_true]
   simp [frameLabels, frameDenseM]
-
-theorem colAt_toDense (cs : CS Rat) (i : Nat) (hi : i < cs.nMinor) :
-    colAt cs.toDense i = (List.range cs.nMajor).map (fun j => entryAt (cs.slice j) i) := by
-  simp only [colAt, toDense_getElem, List.filterMap_map, Function.comp_def, denseVec, List.getElem?_map,
-    List.getElem?_range hi, Option.map_some]
-  exact congrFun (List.filterMap_eq_map (f := fun j => entryAt (cs.slice j) i)) _
 
 /-- the table's rows read off the column view -/
 theorem rows_of_csc (inp : Input) (ht : TableOK inp.t) (hcol : inp.colOK) :
@@ -775,29 +666,6 @@ theorem rCounts_sum (t : Table Rat) (h : TableOK t) (o : Bool) : (rCounts t fals
   · exact total_transpose _ _ h.rect
   · rfl
 
-theorem printsAs3_refl (x : Rat) : printsAs3 x x = true := by
-  have h0 : (x - x).abs = 0 := by
-    have : x - x = 0 := by grind
-    rw [this]; rfl
-  simp only [printsAs3, h0, decide_eq_true_eq, tol3]
-  grind
-
-theorem mem_zip_map_self {α β : Type} (g : α → β) : ∀ (l : List α) (a : α) (b : β), (a, b) ∈ l.zip (l.map g) → b = g a
-  | [], _, _, h => by simp at h
-  | x :: l, a, b, h => by
-    simp only [List.map_cons, List.zip_cons_cons, List.mem_cons, Prod.mk.injEq] at h
-    rcases h with ⟨rfl, rfl⟩ | h
-    · rfl
-    · exact mem_zip_map_self g l a b h
-
-theorem pairwiseLe_of_pairwise : ∀ (l : List Rat), l.Pairwise (· ≤ ·) → pairwiseLe l = true
-  | [], _ => rfl
-  | [_], _ => rfl
-  | a :: b :: rest, h => by
-    rw [List.pairwise_cons] at h
-    simp only [pairwiseLe, Bool.and_eq_true, decide_eq_true_eq]
-    exact ⟨h.1 b (by simp), pairwiseLe_of_pairwise (b :: rest) h.2⟩
-
 theorem stR_eq (inp : Input) (ht : TableOK inp.t) (q o : Bool) :
     statsM (rInput inp o).t q = match rCounts inp.t q o with
       | [] => { min := 0, max := 0, median := 0, mean := 0, counts := (inp.t.ids (rAxis o)).zip (rCounts inp.t q o) }
@@ -891,52 +759,6 @@ theorem report_model_holds (inp : Input) (ht : TableOK inp.t) (hrow : inp.rowOK)
 
 /-! ### metadata frames -/
 
-theorem lookupBy_zip_mem {β : Type} : ∀ (ids : List Id) (xs : List β) (a : Id) (b : β), ids.Nodup →
-    (a, b) ∈ ids.zip xs → lookupBy ids xs a = some b
-  | [], _, _, _, _, h => by simp at h
-  | _ :: _, [], _, _, _, h => by simp at h
-  | i :: is, x :: xs, a, b, hnd, h => by
-    simp only [List.nodup_cons] at hnd
-    simp only [List.zip_cons_cons, List.mem_cons, Prod.mk.injEq] at h
-    simp only [lookupBy]
-    rcases h with ⟨rfl, rfl⟩ | h
-    · simp
-    · have : i ≠ a := fun e => hnd.1 (e ▸ (List.of_mem_zip h).1)
-      simp only [this, if_false]
-      exact lookupBy_zip_mem is xs a b hnd.2 h
-
-theorem entryRow_length (m : MdE) : (entryRow m).length = (entryColumns m).length := by
-  induction m with
-  | nil => rfl
-  | cons kv m ih =>
-    simp only [entryRow, entryColumns, List.flatMap_cons, List.length_append] at ih ⊢
-    rw [ih]
-    congr 1
-    cases kv.2 <;> simp
-
-theorem mcols_homog (cols : List String) : ∀ (es : List MdE), (∀ m ∈ es, entryColumns m = cols) → es ≠ [] →
-    es.foldl (fun acc m => let c := entryColumns m; if c.length > acc.length then c else acc) [] = cols := by
-  have stay : ∀ (es : List MdE), (∀ m ∈ es, entryColumns m = cols) →
-      es.foldl (fun acc m => let c := entryColumns m; if c.length > acc.length then c else acc) cols = cols := by
-    intro es
-    induction es with
-    | nil => intro _; rfl
-    | cons m es ih =>
-      intro h
-      simp only [List.foldl_cons, h m (by simp), Nat.lt_irrefl, if_false, gt_iff_lt]
-      exact ih (fun m' hm' => h m' (by simp [hm']))
-  intro es h hne
-  cases es with
-  | nil => exact absurd rfl hne
-  | cons m es =>
-    simp only [List.foldl_cons, h m (by simp), List.length_nil, gt_iff_lt]
-    by_cases hc : 0 < cols.length
-    · simp only [hc, if_true]; exact stay es (fun m' hm' => h m' (by simp [hm']))
-    · have : cols = [] := List.length_eq_zero_iff.mp (by omega)
-      subst this
-      simp only [List.length_nil, Nat.lt_irrefl, if_false]
-      exact stay es (fun m' hm' => h m' (by simp [hm']))
-
 /-- `metadata_to_dataframe`: refuses an axis without metadata; otherwise (entries with the same
 categories in the same order, distinct column names) the frame is indexed by the IDs in order and,
 for every ID, shows every value of that ID's entry under its column, and nothing else -/
@@ -1015,6 +837,130 @@ theorem rCounts_observations (t : Table Rat) :
   have hc : countOf false = List.sum := by funext v; simp [countOf]
   simp [rCounts, rAxis, hc, Table.ids, vecOf?]
 
+/-! ### nonzero() -/
+
+/-- the pairs `nonzero()` yields, by position: one per stored entry of the row view -/
+def pairsOf (inp : Input) : List (Id × Id) :=
+  (List.range inp.csr.nMajor).flatMap (fun i =>
+    (inp.csr.slice i).map (fun e => (inp.t.obs.getD i "", inp.t.samp.getD e.1 "")))
+
+theorem nonzeroM_eq (inp : Input) (hrow : inp.rowOK) : nonzeroM inp = .ok (pairsOf inp) := by
+  unfold nonzeroM pairsOf
+  have hmem : ∀ i ∈ List.range inp.csr.nMajor, i < inp.csr.nMajor := by simp
+  generalize List.range inp.csr.nMajor = l at hmem ⊢
+  induction l with
+  | nil => rfl
+  | cons i l ih =>
+    have hi : i < inp.t.obs.length := by rw [← hrow.nMaj]; exact hmem i (by simp)
+    have hin : mapE (fun (e : Nat × Rat) => do let s ← getE inp.t.samp e.1; pure (inp.t.obs.getD i "", s)) (inp.csr.slice i)
+        = .ok ((inp.csr.slice i).map (fun e => (inp.t.obs.getD i "", inp.t.samp.getD e.1 ""))) := by
+      apply mapE_ok
+      intro e he
+      have : e.1 < inp.t.samp.length := by
+        rw [← hrow.nMin]; exact hrow.wf.inRange _ (slice_idx_mem _ _ e he).1
+      rw [getE_lt _ _ "" this]; rfl
+    simp only [List.foldr_cons, List.flatMap_cons, ih (fun j hj => hmem j (by simp [hj]))]
+    simp only [getE_lt _ _ "" hi, bind, Except.bind, pure, Except.pure] at hin ⊢
+    rw [hin]
+
+/-- the value of the cell of the i-th observation and j-th sample, read off the row view -/
+theorem cell_at (inp : Input) (ht : TableOK inp.t) (hrow : inp.rowOK) (i j : Nat)
+    (hi : i < inp.t.obs.length) (hj : j < inp.t.samp.length) :
+    inp.t.cell? inp.t.obs[i] inp.t.samp[j] = some (entryAt (inp.csr.slice i) j) := by
+  have hrows : inp.t.rows = (List.range inp.t.obs.length).map (fun i => denseVec inp.t.samp.length (inp.csr.slice i)) := by
+    rw [← hrow.content, toDense_getElem, hrow.nMaj, hrow.nMin]
+  simp only [Table.cell?, Table.row?]
+  rw [lookupBy_getElem _ _ ht.obsNodup ht.nrows.symm i hi]
+  have hir : i < inp.t.rows.length := by rw [ht.nrows]; exact hi
+  rw [List.getElem?_eq_getElem hir]
+  simp only [Option.bind_some]
+  have hrl : inp.t.rows[i] = denseVec inp.t.samp.length (inp.csr.slice i) := by
+    simp only [hrows, List.getElem_map, List.getElem_range]
+  rw [hrl, lookupBy_getElem _ _ ht.sampNodup (by simp [denseVec]) j hj]
+  simp [denseVec, hj]
+
+theorem getD_obs (inp : Input) (i : Nat) (hi : i < inp.t.obs.length) : inp.t.obs.getD i "" = inp.t.obs[i] := by
+  simp [List.getD, List.getElem?_eq_getElem hi]
+theorem getD_samp (inp : Input) (j : Nat) (hj : j < inp.t.samp.length) : inp.t.samp.getD j "" = inp.t.samp[j] := by
+  simp [List.getD, List.getElem?_eq_getElem hj]
+
+theorem slice_idx_lt (inp : Input) (hrow : inp.rowOK) (i : Nat) (e : Nat × Rat) (he : e ∈ inp.csr.slice i) :
+    e.1 < inp.t.samp.length := by
+  rw [← hrow.nMin]; exact hrow.wf.inRange _ (slice_idx_mem _ _ e he).1
+
+theorem mem_pairsOf (inp : Input) (ht : TableOK inp.t) (hrow : inp.rowOK) (i j : Nat)
+    (hi : i < inp.t.obs.length) (hj : j < inp.t.samp.length) :
+    (inp.t.obs[i], inp.t.samp[j]) ∈ pairsOf inp ↔ ∃ e ∈ inp.csr.slice i, e.1 = j := by
+  simp only [pairsOf, List.mem_flatMap, List.mem_map, List.mem_range, Prod.mk.injEq, hrow.nMaj]
+  constructor
+  · rintro ⟨i', hi', e, he, h1, h2⟩
+    have hlt := slice_idx_lt inp hrow i' e he
+    rw [getD_obs inp i' hi'] at h1
+    rw [getD_samp inp e.1 hlt] at h2
+    have hii : i' = i := (ht.obsNodup.getElem_inj_iff).mp h1
+    have hjj : e.1 = j := (ht.sampNodup.getElem_inj_iff).mp h2
+    subst hii
+    exact ⟨e, he, hjj⟩
+  · rintro ⟨e, he, hej⟩
+    refine ⟨i, hi, e, he, getD_obs inp i hi, ?_⟩
+    subst hej
+    exact getD_samp inp e.1 hj
+
+theorem pairsOf_nodup (inp : Input) (ht : TableOK inp.t) (hrow : inp.rowOK) : (pairsOf inp).Nodup := by
+  unfold pairsOf
+  rw [List.nodup_flatMap]
+  constructor
+  · intro i hi
+    have hi' : i < inp.csr.nMajor := List.mem_range.mp hi
+    have hnd := hrow.wf.distinct i hi'
+    apply List.Nodup.map_on _ (List.Nodup.of_map _ hnd)
+    intro e he e' he' heq
+    simp only [Prod.mk.injEq, true_and] at heq
+    rw [getD_samp inp e.1 (slice_idx_lt inp hrow i e he), getD_samp inp e'.1 (slice_idx_lt inp hrow i e' he')] at heq
+    have h1 : e.1 = e'.1 := (ht.sampNodup.getElem_inj_iff).mp heq
+    exact List.inj_on_of_nodup_map hnd he he' h1
+  · apply List.Pairwise.imp_of_mem _ (List.nodup_iff_pairwise_ne.mp List.nodup_range)
+    intro i i' hi hi' hne
+    simp only [Function.onFun]
+    rw [List.disjoint_left]
+    intro p hp hp'
+    obtain ⟨e, _, rfl⟩ := List.mem_map.mp hp
+    obtain ⟨e', _, heq⟩ := List.mem_map.mp hp'
+    simp only [Prod.mk.injEq] at heq
+    have hi1 : i < inp.t.obs.length := by rw [← hrow.nMaj]; exact List.mem_range.mp hi
+    have hi2 : i' < inp.t.obs.length := by rw [← hrow.nMaj]; exact List.mem_range.mp hi'
+    rw [getD_obs inp i hi1, getD_obs inp i' hi2] at heq
+    exact hne ((ht.obsNodup.getElem_inj_iff).mp heq.1).symm
+
+/-- `nonzero()`: exactly the (observation ID, sample ID) pairs whose cell is not zero, each once -/
+theorem nonzero_model_holds (inp : Input) (ht : TableOK inp.t) (hrow : inp.rowOK) :
+    ∃ ps, nonzeroM inp = .ok ps ∧ holdsNonzero inp.t ps = true := by
+  refine ⟨pairsOf inp, nonzeroM_eq inp hrow, ?_⟩
+  simp only [holdsNonzero, Bool.and_eq_true, decide_eq_true_eq, List.all_eq_true, List.contains_eq_mem,
+    beq_iff_eq]
+  refine ⟨⟨pairsOf_nodup inp ht hrow, ?_⟩, ?_⟩
+  · intro p hp
+    simp only [pairsOf, List.mem_flatMap, List.mem_map, List.mem_range, hrow.nMaj] at hp
+    obtain ⟨i, hi, e, he, rfl⟩ := hp
+    have hlt := slice_idx_lt inp hrow i e he
+    simp only [getD_obs inp i hi, getD_samp inp e.1 hlt]
+    exact ⟨List.getElem_mem _, List.getElem_mem _⟩
+  · intro o ho s hs
+    obtain ⟨i, hi, rfl⟩ := List.getElem_of_mem ho
+    obtain ⟨j, hj, rfl⟩ := List.getElem_of_mem hs
+    rw [cell_at inp ht hrow i j hi hj]
+    have hnz : ∀ e ∈ inp.csr.slice i, e.2 ≠ 0 := fun e he => hrow.nsz _ (slice_idx_mem _ _ e he).2
+    have h1 := mem_pairsOf inp ht hrow i j hi hj
+    have h2 := entryAt_ne_zero_iff (inp.csr.slice i) j hnz
+    by_cases hm : (inp.t.obs[i], inp.t.samp[j]) ∈ pairsOf inp
+    · have := h2.mpr (h1.mp hm)
+      simp [hm, this]
+    · have : entryAt (inp.csr.slice i) j = 0 := by
+        by_contra hne
+        exact hm (h1.mpr (h2.mp hne))
+      simp [hm, this]
+
+
 /-- everything at once: for every table of the domain in every well-formed layout without stored
 zeros, each predicate of the property is true of what the model of the code produces -/
 theorem model_holds (inp : Input) (ht : TableOK inp.t) (hrow : inp.rowOK) (hcol : inp.colOK) :
@@ -1024,29 +970,18 @@ theorem model_holds (inp : Input) (ht : TableOK inp.t) (hrow : inp.rowOK) (hcol 
       holdsReport inp.t q o ((reportM inp q o).printed std) = true) ∧
     (∀ o, holdsIds inp.t o (idsM inp.t o) = true) ∧
     (∀ n m, holdsHead inp.t n m (headM inp.t n m) = true) ∧
-    holdsFrame inp.t (frameDenseM inp.t) = true :=
+    holdsFrame inp.t (frameDenseM inp.t) = true ∧
+    (∃ ps, nonzeroM inp = .ok ps ∧ holdsNonzero inp.t ps = true) :=
   ⟨fun f q => queries_model_holds inp f q ht hrow hcol,
    fun b => stats_model_holds inp.t ht b,
    fun q o std h => report_model_holds inp ht hrow hcol q o std h,
    fun o => ids_model_holds inp.t o,
    fun n m => head_model_holds inp.t n m,
-   frame_dense_holds inp.t⟩
+   frame_dense_holds inp.t,
+   nonzero_model_holds inp ht hrow⟩
 
 
 /-! ### the decidable layout check of the driver implies the hypotheses of the theorems -/
-
-theorem wf_of_wfb (cs : CS Rat) (h : cs.wfb = true) : cs.WF := by
-  simp only [CS.wfb, Bool.and_eq_true, beq_iff_eq, List.all_eq_true, decide_eq_true_eq, List.mem_range] at h
-  obtain ⟨⟨⟨⟨⟨⟨h1, h2⟩, h3⟩, h4⟩, h5⟩, h6⟩, h7⟩ := h
-  exact ⟨h1, h2, h3, h4, h5, h6, h7⟩
-
-theorem viewOK_of_b (cs : CS Rat) (n m : Nat) (g : Grid) (h : viewOKb cs n m g = true) : ViewOK cs n m g := by
-  simp only [viewOKb, Bool.and_eq_true, beq_iff_eq] at h
-  obtain ⟨⟨⟨⟨h1, h2⟩, h3⟩, h4⟩, h5⟩ := h
-  refine ⟨wf_of_wfb cs h1, h2, h3, h4, ?_⟩
-  intro v hv
-  simp only [nszb, List.all_eq_true, bne_iff_ne, ne_eq] at h5
-  exact h5 v hv
 
 theorem okb_sound (inp : Input) (h : inp.okb = true) : inp.rowOK ∧ inp.colOK := by
   simp only [Input.okb, Bool.and_eq_true] at h
